@@ -187,6 +187,12 @@ def apply_op(o, op):
             getattr(o, op[1])(*canned_args(op[1], o))
         except Exception:  # noqa  a failing operation is part of the history; what it leaves behind is compared
             pass
+    elif kind == "motion0":
+        # the identity motion: translation (0, 0), angle 0 — every coordinate and angle keeps its value, but the library
+        # recomputes (and re-allocates) the arrays.  Shapes / states hand back a new object instead of moving themselves.
+        res = getattr(o, op[1])(np.array([0.0, 0.0]), 0.0)
+        if res is not None and type(res) is type(o):
+            o = res
     elif kind == "reads":
         S.read_only_history(o)
     elif kind == "nested":
@@ -300,10 +306,35 @@ def gen_histories(r, dx, n_params=2):
     out += gen_routes(r, dx)
     if cls in S.ALT_CLASSES:
         out.append({"hkind": "alt-entry", "attr": None, "hist": [], "partner": {"desc": dict(dx, via="alt")}})
+    out += gen_layouts(r, dx, tab)
     for mode in ("int", "np"):
         dn = numeric_twin(dx, mode)
         if json.dumps(dn) != json.dumps(dx):  # 2 == 2.0 in Python: compare the written form
             out.append({"hkind": "numeric-" + mode, "attr": None, "hist": [], "partner": {"desc": dn}})
+    return out
+
+
+def gen_layouts(r, dx, tab):
+    """MEMORY LAYOUT of the array-valued attributes (positions, centers, polylines, polygon vertices at any depth): twins
+    with identical entries whose arrays are column-major, transposed views, strided / reversed views into larger buffers or
+    big-endian (one side, and both sides differently); the object after the identity motion (translate_rotate by (0, 0), 0:
+    same values, arrays re-allocated by the library); and pairs whose arrays hold different points in the same bytes."""
+    out = []
+    l1, l2 = S.relayout(r, dx), S.relayout(r, dx)
+    if l1:
+        out.append({"hkind": "layout", "attr": None, "hist": [], "partner": {"desc": l1[0]}, "tags": ["layout:" + u for u in l1[1]]})
+    if l1 and l2 and json.dumps(l1[0]) != json.dumps(l2[0]):
+        out.append({"hkind": "layout-both", "attr": None, "hist": [["reads"]] if r.random() < 0.3 else [], "y_desc": l2[0],
+                    "partner": {"desc": l1[0]}, "tags": ["layout:" + u for u in l2[1]]})
+    for m in ("translate_rotate", "rotate_translate_local"):
+        if m in tab["methods"] and (m == "translate_rotate" or r.random() < 0.5):
+            out.append({"hkind": "identity-motion", "attr": m, "hist": [["motion0", m]], "partner": "x"})
+            if l1 and r.random() < 0.5:
+                out.append({"hkind": "identity-motion", "attr": m, "hist": [["motion0", m]], "y_desc": l1[0], "partner": "x"})
+    al = S.layout_alias(r, dx)
+    if al:
+        out.append({"hkind": "layout-alias", "attr": "/".join(str(k) for k in al[2] if k != "args"), "hist": [], "y_desc": al[1],
+                    "partner": {"desc": al[0]}, "differs": True})
     return out
 
 
